@@ -34,3 +34,15 @@ mod de;
 
 pub mod json;
 pub mod smile;
+
+/// Internals exposed to the verification harness (only with `--cfg conjure_rust_verif`).
+#[cfg(conjure_rust_verif)]
+#[doc(hidden)]
+pub mod verif {
+    /// Serializer wrappers and behaviors.
+    pub mod ser {
+        pub use crate::json::ser::{KeyBehavior as JsonKeyBehavior, ValueBehavior as JsonValueBehavior};
+        pub use crate::ser::{Behavior, Override};
+        pub use crate::smile::VerifSerValueBehavior as SmileValueBehavior;
+    }
+}
